@@ -75,6 +75,7 @@ class Improve(Suite):
 
 
 class Bio(Suite):
+    names_rate, past_rate = 0.06, 0.06     # hostile element names / datasets with a past (gen.decorate_cases)
     name = "bioconsert"
     imports = ["Scheme", "Rank", "BioConsert", "Judge.JBio"]
     judge = "judge_bio"
